@@ -64,6 +64,8 @@ class Exec:
         self.depth = 0
         self.bound = 0  # depth of enclosing comprehensions / map loops
         self.known = []  # path conditions (value, polarity) of the branch being executed
+        self.attrs = {}  # (value, attribute name) -> value: what the caller fixes about its symbols (e.g. the rank of x.shape)
+        self.callhooks = {}  # function value -> f(args, kwargs) -> value or None: semantics the caller gives to an external helper
         self.watch = {}  # function / method name -> list of (path conditions, args, kwargs) of every call met
         self.funcs = {n.name: n for n in tree.body if isinstance(n, ast.FunctionDef)}
         self.classes = {n.name: n for n in tree.body if isinstance(n, ast.ClassDef)}
@@ -101,7 +103,10 @@ class Exec:
                 return env[node.id]
             return ("sym", node.id)
         if isinstance(node, ast.Attribute):
-            return ("attr", self.ev(node.value, env), node.attr)
+            obj = self.ev(node.value, env)
+            if (obj, node.attr) in self.attrs:
+                return self.attrs[(obj, node.attr)]
+            return ("attr", obj, node.attr)
         if isinstance(node, ast.BinOp):
             for k, sym in BINOPS.items():
                 if isinstance(node.op, k):
@@ -141,8 +146,13 @@ class Exec:
             left = self.ev(node.left, env)
             for op, r in zip(node.ops, node.comparators):
                 right = self.ev(r, env)
-                parts.append(("cmp", CMPOPS[type(op)], left, right))
+                parts.append(self.compare(CMPOPS[type(op)], left, right))
                 left = right
+            parts = [p for p in parts if p != TRUE]
+            if FALSE in parts:
+                return FALSE
+            if not parts:
+                return TRUE
             return parts[0] if len(parts) == 1 else ("bool", "and", tuple(parts))
         if isinstance(node, ast.IfExp):
             c = self.decide(self.ev(node.test, env))
@@ -222,6 +232,13 @@ class Exec:
             self.known.pop()
         return ("if", c, a, b)
 
+    def compare(self, op, a, b):
+        if is_const(a) and is_const(b) and type(a[1]) is int and type(b[1]) is int:
+            r = {"<": a[1] < b[1], "<=": a[1] <= b[1], ">": a[1] > b[1], ">=": a[1] >= b[1], "==": a[1] == b[1], "!=": a[1] != b[1]}.get(op)
+            if r is not None:
+                return TRUE if r else FALSE
+        return ("cmp", op, a, b)
+
     def neg(self, a):
         if a == TRUE:
             return FALSE
@@ -258,6 +275,9 @@ class Exec:
             return obj[1][idx[1]]
         if obj[0] in ("tuple", "list") and idx[0] == "slice" and all(is_const(x) and (x[1] is None or type(x[1]) is int) for x in idx[1:]) and not any(x[0] == "star" for x in obj[1]):
             return (obj[0], obj[1][slice(idx[1][1], idx[2][1], idx[3][1])])
+        # the last k sizes of a tensor of unknown rank: x.shape[-k:] has k entries (the rank is at least k where this is used)
+        if obj[0] == "attr" and obj[2] == "shape" and idx[0] == "slice" and is_const(idx[1]) and type(idx[1][1]) is int and idx[1][1] < 0 and idx[2] == NONE and idx[3] == NONE:
+            return ("tuple", tuple(("sub", obj, const(i)) for i in range(idx[1][1], 0)))
         if obj[0] == "dict" and is_const(idx):
             for k, v in obj[1]:
                 if k == idx:
@@ -342,6 +362,18 @@ class Exec:
                 return ("map", ("bv", self.bound + 1), args[0])  # [i for i in range(..)]
         if f == ("sym", "int") and len(args) == 1 and is_const(args[0]) and type(args[0][1]) is int:
             return args[0]
+        if f in (("sym", "all"), ("sym", "any")) and len(args) == 1 and args[0][0] in ("gen", "list", "tuple") and not kwargs:
+            op = "and" if f[1] == "all" else "or"
+            items = [x for x in args[0][1] if x != (TRUE if op == "and" else FALSE)]
+            if any(x == (FALSE if op == "and" else TRUE) for x in items):
+                return FALSE if op == "and" else TRUE
+            if not items:
+                return TRUE if op == "and" else FALSE
+            return items[0] if len(items) == 1 else ("bool", op, tuple(items))
+        if f in self.callhooks:
+            r = self.callhooks[f](args, kwargs)
+            if r is not None:
+                return r
         wname = f[1] if f[0] == "sym" else f[2] if f[0] == "attr" else None
         if wname in self.watch:
             self.watch[wname].append((tuple(self.known), args, kwargs))
@@ -425,6 +457,8 @@ class Exec:
         sub.bound = self.bound
         sub.known = self.known
         sub.watch = self.watch
+        sub.attrs = self.attrs
+        sub.callhooks = self.callhooks
         tree = sub.block(strip_doc(fn.body), env, lambda e: ("ret", NONE))
         return self.tree_value(tree, node)
 
@@ -469,11 +503,18 @@ class Exec:
             if isinstance(s.value, ast.Call) and isinstance(s.value.func, ast.Attribute) and isinstance(s.value.func.value, ast.Name) and s.value.func.value.id in env and env[s.value.func.value.id][0] != "sym":
                 name, meth = s.value.func.value.id, s.value.func.attr
                 cur = env[name]
-                if meth == "append" and cur[0] == "list" and len(s.value.args) == 1 and not s.value.keywords:
+                if meth in ("append", "extend") and cur[0] == "list" and len(s.value.args) == 1 and not s.value.keywords:
                     if any(n != name and v is cur for n, v in env.items()):
                         self.fail(s, "append through an aliased local")
+                    arg = self.ev(s.value.args[0], env)
+                    if meth == "extend":
+                        more = self.concrete_iter(arg)
+                        if more is None:
+                            self.fail(s, "extend by an iterable of unknown length")
+                    else:
+                        more = [arg]
                     e2 = dict(env)
-                    e2[name] = ("list", cur[1] + (self.ev(s.value.args[0], env),))
+                    e2[name] = ("list", cur[1] + tuple(more))
                     return cont(e2)
                 self.fail(s, "method called for its effect on a local value")
             v = self.ev(s.value, env)
@@ -701,7 +742,7 @@ def watch_calls(tree, path, qualname, names, opaque=(), inline=None):
     return ex.watch, stopped
 
 
-def run_function(tree, path, qualname, opaque=(), inline=None, args=None, max_depth=4, allow_stuck=False):
+def run_function(tree, path, qualname, opaque=(), inline=None, args=None, max_depth=4, allow_stuck=False, attrs=None, assume=(), callhooks=None):
     """Outcome tree of `func` / `Class.method` with its parameters as symbols (`args` may bind some to given values)."""
     parts = qualname.split(".")
     cls = parts[0] if len(parts) == 2 else None
@@ -715,6 +756,9 @@ def run_function(tree, path, qualname, opaque=(), inline=None, args=None, max_de
             raise Untranslatable("definition %s not found" % qualname, None, path)
         node = found
     ex = Exec(tree, path, cls=cls, opaque=set(opaque) | {parts[-1]}, inline=inline, max_depth=max_depth)
+    ex.attrs = dict(attrs or {})
+    ex.callhooks = dict(callhooks or {})
+    ex.known = list(assume)
     env = {}
     for a in node.args.posonlyargs + node.args.args + node.args.kwonlyargs:
         env[a.arg] = ("sym", a.arg)
@@ -779,6 +823,36 @@ def prune_raises(tree):
         return None
     if tree[0] == "stuck":
         raise tree[1]
+    return tree
+
+
+def _pull_ife(v):
+    """Moves a conditional out of the receiver position: (a if c else b)[i] -> a[i] if c else b[i], likewise for
+    attributes and method calls on a conditional."""
+    if v[0] == "ife":
+        return ("ife", v[1], _pull_ife(v[2]), _pull_ife(v[3]))
+    if v[0] in ("sub", "attr") and isinstance(v[1], tuple):
+        inner = _pull_ife(v[1])
+        if inner[0] == "ife":
+            return ("ife", inner[1], _pull_ife((v[0], inner[2]) + v[2:]), _pull_ife((v[0], inner[3]) + v[2:]))
+    if v[0] == "call" and v[1][0] == "attr":
+        f = _pull_ife(v[1])
+        if f[0] == "ife":
+            return ("ife", f[1], _pull_ife(("call", f[2]) + v[2:]), _pull_ife(("call", f[3]) + v[2:]))
+    return v
+
+
+def lift_ife(tree):
+    """Conditional return values (from inlined helpers with branches, or `a if c else b`) as branches of the outcome tree."""
+    if tree[0] == "if":
+        return ("if", tree[1], lift_ife(tree[2]), lift_ife(tree[3]))
+    if tree[0] == "do":
+        return ("do", tree[1], lift_ife(tree[2]))
+    if tree[0] == "ret":
+        v = _pull_ife(tree[1])
+        if v[0] == "ife":
+            return ("if", v[1], lift_ife(("ret", v[2])), lift_ife(("ret", v[3])))
+        return ("ret", v)
     return tree
 
 
